@@ -81,6 +81,7 @@ namespace {
 struct P {
     const char *p, *e;
     std::string err;
+    bool rfc = false; // decode \uXXXX as RFC 8259 says (code points -> UTF-8) instead of our own latin-1 view of bytes
     void ws()
     {
         while (p < e && (*p == ' ' || *p == '\n' || *p == '\r' || *p == '\t'))
@@ -124,8 +125,29 @@ struct P {
                         else if (h >= 'A' && h <= 'F') v |= h - 'A' + 10;
                         else return fail("bad \\u digit");
                     }
-                    if (v < 0x100)
-                        out += (char)v; // our own files: latin-1 view of raw bytes
+                    if (rfc && v >= 0xd800 && v < 0xdc00 && e - p >= 6 && p[0] == '\\' && p[1] == 'u') { // surrogate pair
+                        unsigned lo = 0;
+                        bool okh = true;
+                        for (int k = 2; k < 6; ++k) {
+                            char h = p[k];
+                            lo <<= 4;
+                            if (h >= '0' && h <= '9') lo |= h - '0';
+                            else if (h >= 'a' && h <= 'f') lo |= h - 'a' + 10;
+                            else if (h >= 'A' && h <= 'F') lo |= h - 'A' + 10;
+                            else okh = false;
+                        }
+                        if (okh && lo >= 0xdc00 && lo < 0xe000) {
+                            p += 6;
+                            unsigned cp = 0x10000 + ((v - 0xd800) << 10) + (lo - 0xdc00);
+                            out += (char)(0xf0 | (cp >> 18));
+                            out += (char)(0x80 | ((cp >> 12) & 0x3f));
+                            out += (char)(0x80 | ((cp >> 6) & 0x3f));
+                            out += (char)(0x80 | (cp & 0x3f));
+                            break;
+                        }
+                    }
+                    if (v < (rfc ? 0x80u : 0x100u))
+                        out += (char)v; // (not rfc: our own files hold a latin-1 view of raw bytes)
                     else if (v < 0x800) {
                         out += (char)(0xc0 | (v >> 6));
                         out += (char)(0x80 | (v & 0x3f));
@@ -215,6 +237,25 @@ struct P {
     }
 };
 } // namespace
+
+bool Json::parse_rfc(const std::string &text, Json &out, std::string *err)
+{
+    P ps;
+    ps.rfc = true;
+    ps.p = text.data();
+    ps.e = text.data() + text.size();
+    bool ok = ps.val(out, 0);
+    if (ok) {
+        ps.ws();
+        if (ps.p != ps.e) {
+            ok = false;
+            ps.err = "trailing data";
+        }
+    }
+    if (!ok && err)
+        *err = ps.err;
+    return ok;
+}
 
 bool Json::parse(const std::string &text, Json &out, std::string *err)
 {
